@@ -110,6 +110,44 @@ def judge(prop, verdict, traces, label):
     return sum(len(t) - 1 for t in traces), st
 
 
+def died(out, err, summ):
+    """The harness PROCESS ended before it could print its summary (os.Exit / fatal error / unrecovered panic in a
+    goroutine of the code under test) - as opposed to a failing or timed-out test."""
+    txt = out + err
+    return summ is None and "test timed out" not in txt and "harness error" not in txt and "VERIF_PLAN" not in txt
+
+
+def in_flight(progp):
+    started, done = [], set()
+    if os.path.exists(progp):
+        for line in open(progp):
+            try:
+                r = json.loads(line)
+            except ValueError:
+                continue
+            (started.append(r["id"]) if r["ev"] == "start" else done.add(r["id"]))
+    return [i for i in started if i not in done]
+
+
+def process_death(prop, verdict, binp, wd, plan, progp):
+    """C04 ("the process keeps running"): the harness process died.  Every case that was in flight is re-run alone; a case
+    that kills the process again is a violation (replayable), anything else stays 'no verdict'."""
+    found = 0
+    for cid in in_flight(progp)[:12]:
+        p1 = dict(plan, workers=1, only=[cid])
+        planp = os.path.join(wd, "plan_%s.json" % cid)
+        json.dump(p1, open(planp, "w"))
+        rc, out, err, summ = vlib.run_harness(binp, "TestVerifGensign", {"VERIF_PLAN": planp, "VERIF_OUT": os.path.join(wd, "obs_%s.ndjson" % cid)}, timeout=300)
+        if died(out, err, summ):
+            case = next((c for c in plan["cases"] if c["id"] == cid), None)
+            info = {"exit": True, "seed": vlib.seed(), "case": case, "only": cid, "random": plan.get("random")}
+            rp = vlib.save_replay(prop, "exit_%s.ndjson" % cid, [{"ev": "reset", "tid": cid, "post": {"ag": []}, "info": info}])
+            tail = (out + err).strip().splitlines()[-3:]
+            verdict.violation("process-exit case=%s" % cid, "the process running gensign.Run ended (rc=%d) while executing case %s alone: %s" % (rc, cid, " | ".join(tail)[:500]), rp)
+            found += 1
+    return found
+
+
 def build():
     return vlib.build_harness("gensign", "gensign/regular", OVERLAY, outdir=None)
 
@@ -127,6 +165,20 @@ def replay(prop, path):
     wd = vlib.workdir(prop, "replay_run")
     binp = build_for(prop)
     planp, outp = os.path.join(wd, "plan.json"), os.path.join(wd, "obs.ndjson")
+    if info.get("exit"):
+        plan = {"cases": [info["case"]] if info.get("case") else [], "random": None if info.get("case") else info.get("random"),
+                "workers": 1, "only": [info["only"]]}
+        json.dump(plan, open(planp, "w"))
+        rc, out, err, summ = vlib.run_harness(binp, "TestVerifGensign", {"VERIF_PLAN": planp, "VERIF_OUT": outp, "VERIF_SEED": str(info.get("seed", 1))}, timeout=600)
+        verdict = vlib.Verdict(prop)
+        if died(out, err, summ):
+            verdict.violation("process-exit case=%s" % info["only"], "the process running gensign.Run ended (rc=%d): %s" % (rc, (out + err)[-400:]), path)
+            return verdict.finish()
+        if rc != 0 or not summ:
+            raise NoVerdict("replay harness failed:\n" + out[-2000:] + err[-2000:])
+        ts = vlib.split_traces(vlib.read_ndjson(outp))
+        judge(prop, verdict, ts, "replay")
+        return verdict.finish()
     if info.get("stat"):
         json.dump({"cases": [], "random": {"n": info.get("nrand", 64), "maxruns": 3}, "workers": 4}, open(planp, "w"))
     else:
@@ -188,7 +240,14 @@ def run(prop, tier):
     plan = {"cases": plan_cases, "random": {"n": nrand, "maxruns": 3 if tier == "quick" else 4}, "workers": 6}
     planp, outp = os.path.join(wd, "plan.json"), os.path.join(wd, "obs.ndjson")
     json.dump(plan, open(planp, "w"))
-    rc, out, err, summ = vlib.run_harness(binp, "TestVerifGensign", {"VERIF_PLAN": planp, "VERIF_OUT": outp, "VERIF_TIER": tier}, timeout=3000)
+    progp = os.path.join(wd, "progress.ndjson")
+    rc, out, err, summ = vlib.run_harness(binp, "TestVerifGensign", {"VERIF_PLAN": planp, "VERIF_OUT": outp, "VERIF_TIER": tier, "VERIF_PROGRESS": progp}, timeout=3000)
+    if prop == "C04" and died(out, err, summ) and process_death(prop, verdict, binp, wd, plan, progp):
+        rc = verdict.finish()
+        vlib.write_evidence(prop, tier, "model_checking", {"states": states, "transitions": trans, "traces_validated_against_impl": 0,
+                            "samples": [["the harness process was terminated by the code under test"]], "model_cfg": cfg},
+                            ["see notes/gensign.md"], time.time() - t0, len(verdict.violations))
+        return rc
     if rc != 0 or not summ or summ.get("errors"):
         raise NoVerdict("gensign harness failed (rc=%d):\n%s\n%s" % (rc, out[-3000:], err[-3000:]))
     traces = vlib.split_traces(vlib.read_ndjson(outp))
